@@ -498,5 +498,5 @@ PROPS["C02"] = {
 }
 
 ALL = ["C%02d" % i for i in range(1, 21)]
-HOOK_COMMITS = ["27cc801", "8f68576", "99816ae", "c29f982"]
+HOOK_COMMITS = ["27cc801", "8f68576", "99816ae", "c29f982", "73931bd"]
 NOT_APPLICABLE = {p: "check not built yet in this session (work in progress; see DESIGN.md section 9 for order)" for p in ALL if p not in PROPS}
